@@ -479,6 +479,22 @@ func cmdCheck(args []string) int {
 		"assumed_in_repo_summaries": assumedSummaries,
 		"schema_unfoldings_used":   schemaUses,
 	}
+	// thorough tier: dynamic cross-checks on the real code and the must-fail corpus
+	var thorough map[string]any
+	if tier == "thorough" && violations == 0 && os.Getenv("GVC_NO_SELFTEST") == "" {
+		thorough = e.thoroughExtras(id, keys)
+		if n, _ := thorough["smoke_violations"].(int); n > 0 {
+			for _, v := range thorough["smoke_reports"].([]string) {
+				rp := filepath.Join(replayDir, "smoke.json")
+				os.MkdirAll(replayDir, 0o755)
+				bs, _ := json.MarshalIndent(thorough, "", " ")
+				os.WriteFile(rp, bs, 0o644)
+				fmt.Printf("VIOLATION property=%s replay=%s reason=%q\n", id, rp, "scenario harness on the unchanged tree: "+v)
+				violations++
+			}
+		}
+		cov["thorough"] = thorough
+	}
 	if total == 0 {
 		// never report success on zero obligations
 		fmt.Printf("VIOLATION property=%s replay=%s reason=%q no-failing-input-found\n", id, ledgerPath, "no obligations were generated (vacuous check)")
@@ -505,6 +521,12 @@ func cmdCheck(args []string) int {
 	bs, _ = json.MarshalIndent(all, "", " ")
 	os.WriteFile(filepath.Join(outDir, "obligations.json"), bs, 0o644)
 	fmt.Printf("%s: %d/%d obligations discharged, %d vacuity covers ok, %d functions, %.1fs\n", id, discharged, total, coversOK, len(keys), time.Since(t0).Seconds())
+	if thorough != nil {
+		if missed, _ := thorough["selftest_missed"].([]string); len(missed) > 0 {
+			fmt.Printf("SELFTEST-FAILED: seeded changes no longer detected by %s: %v (the machinery is weaker than recorded; not a verdict about the repository)\n", id, missed)
+			return 2
+		}
+	}
 	if violations > 0 {
 		return 1
 	}
